@@ -144,6 +144,10 @@ func propSetTables(c *Ctx, pr *PropertyRun, prop string, pkgs []string) {
 						args = append(args, in.symOf(prm.Type(), "x"))
 					case i == 0 && fn.Signature.Recv() != nil:
 						args = append(args, in.symOf(prm.Type(), "b"))
+					case isNamedPtr(prm.Type(), pkgInternal, "PropFind"):
+						// the request: a property may be left out of one form
+						// of answer (RFC 3253: not in allprop)
+						args = append(args, in.symOf(prm.Type(), "propfind"))
 					default:
 						args = append(args, Opaque{prm.Name(), prm.Type()})
 					}
